@@ -115,6 +115,17 @@ def conventions_agree(req):
         if r:
             return r
 
+        # proxies at function level
+        target = A()(mk_body("t"))
+        px = async_proxy()(lambda *a, **k: target.asynq(*a, **k))
+        r = check("async_proxy/%s" % bname, px, (1,), {"y": 2}, ("t", (1,), (("y", 2),)))
+        if r:
+            return r
+        ppx = async_proxy(sync_fn=lambda *a, **k: ("sync_px", a, tuple(sorted(k.items()))))(lambda *a, **k: target.asynq(*a, **k))
+        r = check("async_proxy(sync_fn)/%s" % bname, ppx, (1,), {"y": 2}, ("t", (1,), (("y", 2),)), sync_differs=("sync_px", (1,), (("y", 2),)))
+        if r:
+            return r
+
         # bindings
         class Base:
             @A()
@@ -154,6 +165,17 @@ def conventions_agree(req):
 
             @async_proxy()
             def proxied(self, *a, **k):
+                return self.meth.asynq(*a, **k)
+
+            def _sync_proxied(self, *a, **k):
+                return ("sync_px", self, a)
+
+            @async_proxy(sync_fn=_sync_proxied)
+            def pproxied(self, *a, **k):
+                return self.meth.asynq(*a, **k)
+
+            @async_proxy(pure=True)
+            def pure_proxied(self, *a, **k):
                 return self.meth.asynq(*a, **k)
 
             # the decorator applied over a staticmethod / classmethod object
@@ -209,6 +231,9 @@ def conventions_agree(req):
                      ("sync_fn pair classmethod via instance", inst.pcmeth, (1,), {}, ("pcmeth", cls, (1,), ()), ("sync_class", cls, (1,))),
                      ("sync_fn pair classmethod via class", cls.pcmeth, (1,), {}, ("pcmeth", cls, (1,), ()), ("sync_class", cls, (1,))),
                      ("async_proxy method", inst.proxied, (1,), {}, ("meth", inst, (1,), ()), None),
+                     ("async_proxy method via class", cls.proxied, (inst, 1), {}, ("meth", inst, (1,), ()), None),
+                     ("async_proxy(sync_fn) method via instance", inst.pproxied, (1,), {"y": 3}, ("meth", inst, (1,), (("y", 3),)), ("sync_px", inst, (1,))),
+                     ("async_proxy(sync_fn) method via class", cls.pproxied, (inst, 1), {}, ("meth", inst, (1,), ()), ("sync_px", inst, (1,))),
                      ("asynq over staticmethod via instance", inst.smeth2, (1,), {}, ("smeth2", None, (1,), ()), None),
                      ("asynq over staticmethod via class", cls.smeth2, (1,), {}, ("smeth2", None, (1,), ()), None),
                      ("asynq over classmethod via instance", inst.cmeth2, (1,), {}, ("cmeth2", cls, (1,), ()), None),
@@ -697,6 +722,52 @@ def mock_patch_all_conventions(req):
             r = restored("patch.object on a staticmethod (%s)" % rname)
             if r:
                 return r
+        # replacement kind x activation style (function decorator, class decorator, start/stop)
+        for rname, new, want in repls:
+            @amock.patch("verif_mock_target.target", new)
+            def as_function_decorator():
+                return all_conv(lambda: mod.target, (1,), {"y": 2})
+
+            @amock.patch("verif_mock_target.target", new)
+            class AsClassDecorator(object):
+                def test_conventions(self):
+                    return all_conv(lambda: mod.target, (1,), {"y": 2})
+
+                def helper(self):
+                    return mod.target
+
+            def as_start_stop():
+                p = amock.patch("verif_mock_target.target", new)
+                p.start()
+                try:
+                    return all_conv(lambda: mod.target, (1,), {"y": 2})
+                finally:
+                    p.stop()
+            for style, thunk in (("function decorator", as_function_decorator), ("class decorator", lambda: AsClassDecorator().test_conventions()),
+                                 ("start/stop", as_start_stop)):
+                try:
+                    res = thunk()
+                except Exception as e:
+                    return fail("a calling convention fails under patch", replacement=rname, activation=style, error=repr(e)[:200])
+                if any(v != want for v in res.values()):
+                    return fail("calling conventions disagree under patch", replacement=rname, activation=style, results=repr(res))
+                r = restored("%s (%s)" % (style, rname))
+                if r:
+                    return r
+            if AsClassDecorator().helper() is not originals["target"]:
+                return fail("class decorator patched outside its test methods / did not restore")
+
+        @amock.patch("verif_mock_target.target")
+        class DefaultInClass(object):
+            def test_default(self, m):
+                m.return_value = "in class"
+                return all_conv(lambda: mod.target, (1,), {}), len(m.call_args_list)
+        res, ncalls = DefaultInClass().test_default()
+        if any(v != "in class" for v in res.values()) or ncalls != 4:
+            return fail("class decorator with a default mock: conventions disagree", results=repr(res), calls=ncalls)
+        r = restored("class decorator with default mock")
+        if r:
+            return r
         # default mock
         with amock.patch("verif_mock_target.target") as m:
             m.return_value = "mocked"
@@ -845,11 +916,22 @@ def options_do_not_change_behaviour(req):
             more = yield get.asynq("z", 3)
             return r, more
 
+        class BadRepr(object):
+            """an argument whose repr() fails: nothing calls it unless a diagnostic names the task"""
+            def __repr__(self):
+                raise ValueError("repr of an argument fails")
+
+        @A()
+        def takes_bad_repr(x, k=None):
+            r = yield get.asynq("a", 40)
+            return r
+
         @A()
         def root():
             out = []
             r = yield [get.asynq("a", 1), get.asynq("a", 2), get.asynq("a", 0), get.asynq("b", 3), sync_inside.asynq(4)]
             out.append(r)
+            out.append((yield takes_bad_repr.asynq(BadRepr(), k=BadRepr())))
             try:
                 yield [failing.asynq(5), get.asynq("b", 6), get.asynq("b", 8)]
             except KeyError as e:
